@@ -140,7 +140,7 @@ theorem isempty_iff (d : DFA σ α) (hv : d.validate = .ok ()) (pd : d.PyShape) 
 
 /-- The BFS over the lazy product is exhaustive (same statement as `C04.product_expandHyp`,
 repeated here so that the comparison proofs do not depend on a `Props` file). -/
-theorem cross_expandHyp (A B : DFA σ α) (l r : Bool) (hA : A.validate = .ok ())
+theorem cmp_cross_expandHyp (A B : DFA σ α) (l r : Bool) (hA : A.validate = .ok ())
     (hB : B.validate = .ok ()) (pA : A.PyShape) :
     ExpandHyp (A.crossSucc B l r) (A.prodUniv B) (A.prodFuel B) (some A.init, some B.init) := by
   have wfA := (DFA.validate_eq_ok A).mp hA
@@ -166,7 +166,7 @@ theorem findState_cross_iff (A B : DFA σ α) (l r : Bool) (hA : A.validate = .o
     findState (A.crossSucc B l r) (fun s => tgt (A.isFinalO s.1) (B.isFinalO s.2)) (A.prodFuel B)
         (some A.init, some B.init) = true ↔
       ∃ w, tgt (A.accepts w) (B.accepts w) = true := by
-  rw [findState_iff (cross_expandHyp A B l r hA hB pA)]
+  rw [findState_iff (cmp_cross_expandHyp A B l r hA hB pA)]
   constructor
   · rintro ⟨w, s, hw, ht⟩
     refine ⟨w, ?_⟩
